@@ -124,6 +124,25 @@ func c04Isolation(c *vlib.Ctx) {
 				}
 				c.Evals(1)
 			}
+			// (2b) NoCopy with spare capacity behind the input (a read buffer, a ring): the bytes there are the caller's;
+			// decoding and every later read-only use leave them - and the input - as they were
+			{
+				room := make([]byte, len(in)+40)
+				copy(room, in)
+				for i := len(in); i < len(room); i++ {
+					room[i] = 0xC3
+				}
+				o := gopacket.DecodeOptions{DecodeStreamsAsDatagrams: dsad, Lazy: lazy, NoCopy: true}
+				if _, pi := c02Sig(room[:len(in)], t, o); pi == nil {
+					for i, b := range room {
+						if (i < len(in) && b != in[i]) || (i >= len(in) && b != 0xC3) {
+							c.Violation("nocopy-decode-writes-to-callers-buffer:"+t.String(), fmt.Sprintf("decoding with %s changed byte %d of the caller's buffer (the input has %d bytes, the buffer %d)", optString(o), i, len(in), len(room)), det(o))
+							break
+						}
+					}
+				}
+				c.Evals(1)
+			}
 			if len(in) >= 1499 || len(ref.Types) >= 3 {
 				c.NonTrivial(vlib.Mix(uint64(t), vlib.HashBytes(in)))
 			}
